@@ -12,7 +12,7 @@ EXPLANATION = (
     "global generator must be preceded by a reseed in the pool initialiser or in the task function itself: forked workers inherit the parent's generator state and would "
     "otherwise produce identical samples. R17b: attribute definedness - every self.X read on the sampling path names an attribute the class (or its bases/subclasses) "
     "defines. R17c (effect summaries): sample() of ParameterSet, ProgramSet and TimeSeries do not mutate self. R17d: every draw is scaled by the object's sigma and is "
-    "reached only when sigma is not None, so zero/absent uncertainty is the identity. Statistical independence beyond 'not the same stream' is not decided."
+    "reached only when sigma is not None, so zero/absent uncertainty is the identity. R17e: every value written by a sample() method is `old value + (terms that carry sigma as a factor)`, so with sigma = 0 the stored value is exactly the old one (a stray baseline or offset would change zero-uncertainty samples). Statistical independence beyond 'not the same stream' is not decided."
 )
 
 DRAWS = {"rand", "randn", "random", "normal", "uniform", "randint", "choice", "standard_normal", "random_sample", "sample", "lognormal", "beta", "gamma", "poisson", "binomial", "multivariate_normal", "permutation", "shuffle"}
@@ -26,6 +26,7 @@ def run(ctx):
     ctx.each(r17b, ctx, repo, T, cg)
     ctx.each(r17c, ctx, repo, E)
     ctx.each(r17d, ctx, repo)
+    ctx.each(r17e, ctx, repo)
 
 
 def draw_calls(fi):
@@ -236,3 +237,80 @@ def r17d(ctx, repo):
             guarded = any((pol and ast.unparse(t) in ("%s.sigma is not None" % me, "%s.sigma" % me)) or ((not pol) and ast.unparse(t) == "%s.sigma is None" % me) for t, pol in gs)
             ctx.check(scaled and guarded, "R17d", fi, enclosing_stmt(d), "draw scaled by sigma and guarded by sigma is not None", "the draw `%s` is %s: with no uncertainty entered the sampled value differs from the source (or raises)" % (ast.unparse(top)[:70], "not multiplied by self.sigma" if not scaled else "reached when sigma is None"))
     ctx.require(n >= 4, "R17d: fewer draws (%d) in the sample family than confirmed (4)" % n)
+
+
+def _terms(e, sign=1):
+    if isinstance(e, ast.BinOp) and isinstance(e.op, ast.Add):
+        return _terms(e.left, sign) + _terms(e.right, sign)
+    if isinstance(e, ast.BinOp) and isinstance(e.op, ast.Sub):
+        return _terms(e.left, sign) + _terms(e.right, -sign)
+    return [(sign, e)]
+
+
+def _factors(e):
+    if isinstance(e, ast.BinOp) and isinstance(e.op, ast.Mult):
+        return _factors(e.left) + _factors(e.right)
+    if isinstance(e, ast.Subscript):
+        return _factors(e.value)
+    return [ast.unparse(e)]
+
+
+def r17e(ctx, repo):
+    ctx.rule("R17e", "identity at sigma = 0: in TimeSeries.sample and Covout.sample every stored value is the previous value plus terms that have self.sigma (or a local defined as such a product) as a factor")
+    n = 0
+    for m, q in (("utils", "TimeSeries.sample"), ("programs", "Covout.sample")):
+        fi = repo.func(m, q)
+        sig = "%s.sigma" % fi.params[0]
+        assigns = {}
+        for s_ in own_nodes(fi.node):
+            if isinstance(s_, ast.Assign) and len(s_.targets) == 1 and isinstance(s_.targets[0], ast.Name):
+                assigns.setdefault(s_.targets[0].id, []).append(s_.value)
+        noise = {k for k, vs in assigns.items() if all(sig in _factors(v) for v in vs)}
+        # loop variables drawn from  zip(<old values>, self.sigma * randn(n))
+        zip_old = {}
+        for l in own_nodes(fi.node):
+            if isinstance(l, ast.For):
+                for c in ast.walk(l.iter):
+                    if isinstance(c, ast.Call) and isinstance(c.func, ast.Name) and c.func.id == "zip" and len(c.args) == 2 and sig in _factors(c.args[1]):
+                        tg = [t for t in ast.walk(l.target) if isinstance(t, ast.Tuple) and len(t.elts) == 2 and all(isinstance(x, ast.Name) for x in t.elts)]
+                        if tg:
+                            noise.add(tg[-1].elts[1].id)
+                            zip_old[tg[-1].elts[0].id] = ast.unparse(c.args[0])
+
+        def vanishes(term):
+            fs = _factors(term)
+            return sig in fs or any(f in noise for f in fs)
+
+        def expand(v):
+            # a local bound once to an expression stands for that expression
+            if isinstance(v, ast.Name) and v.id not in noise and len(assigns.get(v.id, [])) == 1:
+                return expand(assigns[v.id][0])
+            return v
+
+        cands = []  # (store stmt, stored expr, text of the expression that denotes the old value)
+        for s_ in own_nodes(fi.node):
+            if isinstance(s_, ast.Assign) and len(s_.targets) == 1 and isinstance(s_.targets[0], ast.Subscript):
+                tgt = s_.targets[0]
+                for l in K.enclosing_loops(s_):
+                    it = ast.unparse(l.iter)
+                    if isinstance(l.target, ast.Tuple) and len(l.target.elts) == 2 and it == ast.unparse(tgt.value) + ".items()" and ast.unparse(tgt.slice) == ast.unparse(l.target.elts[0]):
+                        cands.append((s_, s_.value, ast.unparse(l.target.elts[1])))
+                        break
+                    if it.startswith("enumerate(") and isinstance(l.target, ast.Tuple) and ast.unparse(tgt.slice) == ast.unparse(l.target.elts[0]):
+                        olds = [k for k, v in zip_old.items() if v == ast.unparse(tgt.value)]
+                        cands.append((s_, s_.value, olds[0] if olds else None))
+                        break
+            elif isinstance(s_, ast.Assign) and len(s_.targets) == 1 and isinstance(s_.targets[0], ast.Attribute) and isinstance(s_.value, ast.ListComp) and len(s_.value.generators) == 1 and ast.unparse(s_.value.generators[0].iter) == ast.unparse(s_.targets[0]):
+                cands.append((s_, s_.value.elt, ast.unparse(s_.value.generators[0].target)))
+            elif isinstance(s_, ast.AugAssign) and isinstance(s_.target, ast.Attribute) and isinstance(s_.op, (ast.Add, ast.Sub)):
+                cands.append((s_, ast.BinOp(left=ast.Name(id="__old__", ctx=ast.Load()), op=ast.Add(), right=s_.value), "__old__"))
+        for s_, val, base in cands:
+            n += 1
+            rest = [(sg, t) for sg, t in _terms(expand(val)) if not vanishes(t)]
+            rest2 = []
+            for sg, t in rest:
+                rest2 += [(sg * g2, t2) for g2, t2 in _terms(expand(t))] if isinstance(t, ast.Name) else [(sg, t)]
+            rest = [(sg, t) for sg, t in rest2 if not vanishes(t)]
+            ok = base is not None and len(rest) == 1 and rest[0][0] == 1 and ast.unparse(rest[0][1]) == base
+            ctx.check(ok, "R17e", fi, s_, "`%s` reduces to the old value at sigma = 0" % norm(s_)[:50], "`%s` does not reduce to the previous value when sigma is 0 (what remains: %s): a sample drawn with zero uncertainty differs from its source" % (norm(s_)[:70], " ".join(("+" if sg > 0 else "-") + ast.unparse(t) for sg, t in rest) or "nothing"))
+    ctx.require(n >= 5, "R17e: fewer perturbation stores (%d) in TimeSeries.sample / Covout.sample than confirmed (5)" % n)
